@@ -3,7 +3,7 @@
    Harvey butterflies with machine-word wrap; final strict reduction), proofs: Transform.v, Inverse.v, NTTClosed.v, NTTTables.v.
    Tables: gen/Params.v regenerated from params.hpp on this run. *)
 From Coq Require Import ZArith List.
-From NTT Require Import Functors Algebra Inverse NTTInst NTTClosed NTTTables Shards.
+From NTT Require Import Functors Algebra Inverse NTTInst NTTClosed NTTTables Shards Permut.
 From NTT.gen Require Import Params.
 Local Open Scope Z_scope.
 
@@ -47,6 +47,15 @@ Theorem C02_structure_inv_open : forall w p g ik K k0, 0 < w -> 1 < p -> 4 * p <
   forall y, canonical p k0 y -> ntt_inv_s w p g ik K k0 y = ntt_inv w p g ik K k0 y.
 Proof. exact closed_struct_inv. Qed.
 Print Assumptions C02_structure_inv_open.
+
+(* the bit-reversal copy of inv_ntt: both implementations of permut.hpp (the shift-loop table for large degrees, the unrolled template
+   recursion scattering into an uninitialised array for degree <= 1024) are the model's BR *)
+Theorem C02_permut_table : forall k0 x, perm_table k0 x = BR k0 x.
+Proof. exact perm_table_BR. Qed.
+Print Assumptions C02_permut_table.
+Theorem C02_permut_unrolled : forall k0 x, perm_unrolled k0 x = BR k0 x.
+Proof. exact perm_unrolled_BR. Qed.
+Print Assumptions C02_permut_unrolled.
 
 (* non-vacuity: the model run on a real row reproduces the words the real library printed (degree 8, p = 15361) *)
 Example C02_nonvacuous :
